@@ -13,14 +13,21 @@ H = os.path.join(C.VERIF, "harness", "C17_closure.py")
 def gen(quick: bool) -> str:
     out = []
 
-    def cond(tag, n, edge_hi, flags, rt, rflag, with_incR):
+    variants = ["lc", "us", "pfx", "lcpfx"]
+    counter = [0]
+
+    def cond(tag, n, edge_hi, flags, rt, rflag, with_incR, variant=None):
+        if variant is None:  # quick: the spelling variant cycles over the conditions; thorough: every variant for every condition
+            variant = variants[counter[0] % len(variants)]
+            counter[0] += 1
+        tag = tag + "_" + variant
         es = [f"e{i}{j}" for i in range(n) for j in range(n)]
         rs = [f"r{i}" for i in range(n)] if with_incR else []
         params = ", ".join([f"{e}: int" for e in es] + [f"{r}: bool" for r in rs])
         pre = " and ".join(f"0 <= {e} <= {edge_hi}" for e in es)
         inc = "[" + ", ".join("[" + ", ".join(f"e{i}{j}" for j in range(n)) + "]" for i in range(n)) + "]"
         incR = "[" + ", ".join(rs) + "]" if with_incR else "[" + ", ".join(["False"] * n) + "]"
-        call = f"{n}, {inc}, {incR}, {list(flags)!r}, {rt}, {rflag}"
+        call = f"{n}, {inc}, {incR}, {list(flags)!r}, {rt}, {rflag}, {variant!r}"
         out.append(f'''
 def g_{tag}({params}) -> bool:
     """
@@ -39,7 +46,11 @@ def replay_g_{tag}({", ".join(es + rs)}):
         for rt in (-1, 0, 1, 2):
             for rflag in ((False, True) if rt >= 0 else (False,)):
                 tag = "n2_" + "".join("1" if f else "0" for f in flags) + f"_r{'x' if rt < 0 else rt}{'f' if rflag else ''}"
-                cond(tag, 2, 2, flags, rt, rflag, rt >= 0)
+                if quick:
+                    cond(tag, 2, 2, flags, rt, rflag, rt >= 0)
+                else:
+                    for v in variants:
+                        cond(tag, 2, 2, flags, rt, rflag, rt >= 0, v)
     if not quick:
         # n = 3: binary edges, all flag sets, no redirect; plus single-flag sets with every redirect placement
         for flags in itertools.product([False, True], repeat=3):
@@ -56,7 +67,7 @@ def run(rep: C.Report) -> None:
     quick = C.tier() == "quick"
     rep.explanation = (
         "The real analyze_templates runs on a real temporary SQLite store under CrossHair. Symbolic: the inclusion matrix (per edge: absent / written as stored / "
-        "written with a lower-case initial), whether a template includes the redirect page; enumerated per condition: classifier flag set, redirect target "
+        "written in another spelling that resolves to the same page: lower-case initial, underscore for space, namespace prefix), whether a template includes the redirect page; enumerated per condition: classifier flag set, redirect target "
         "(none / each template / dangling) and the redirect's own flag. The marked set must equal an independent least-fixpoint closure plus the redirect rule. "
         "The solver only drives the case split here (finite space, exhaustive within the bound) - the weakest use of the technique in this framework, stated as such."
     )
